@@ -230,3 +230,6 @@ mod tests {
         assert!(parse_response(sock, &req, req.url()).is_ok());
     }
 }
+
+#[cfg(kani)]
+include!(concat!(env!("ATTOHTTPC_VERIF_HARNESS"), "/compressed_reader.rs"));
